@@ -30,6 +30,7 @@ pub fn exec(s: &Script, st: &mut Stats) -> Result<RunInfo, Violation> {
     let mut icursor = 0usize;
     let mut h = Hasher::new();
     let mut failed_sticky = false;
+    let mut adler_sticky = false;
     let mut data_sticky = false;
     let mut out: Vec<u8> = Vec::new();
     let mut nontrivial = false;
@@ -51,6 +52,7 @@ pub fn exec(s: &Script, st: &mut Stats) -> Result<RunInfo, Violation> {
                 if op.get(7).copied().unwrap_or(0) != 0 {
                     r.init();
                     failed_sticky = false;
+                    adler_sticky = false;
                     st.inc("probe.init_ops");
                 }
                 // the slice may change between calls: re-create it when the length differs
@@ -85,6 +87,15 @@ pub fn exec(s: &Script, st: &mut Stats) -> Result<RunInfo, Violation> {
                     }
                     if failed_sticky && status != TINFLStatus::Failed {
                         return viol("C05.failure_absorbing", format!("call {}: status {:?} after an earlier Failed without init()", k, status));
+                    }
+                    // a stream that ended with a checksum mismatch stays failed for every later call that still
+                    // asks for the checksum to be verified
+                    if adler_sticky && flags & TINFL_FLAG_PARSE_ZLIB_HEADER != 0 && flags & TINFL_FLAG_IGNORE_ADLER32 == 0 && (status as i32) >= 0 {
+                        return viol("C05.failure_absorbing", format!("call {}: status {:?} after an earlier Adler32Mismatch without init()", k, status));
+                    }
+                    if status == TINFLStatus::Adler32Mismatch {
+                        adler_sticky = true;
+                        st.inc("probe.adler_mismatch_calls");
                     }
                     if status == TINFLStatus::Failed {
                         failed_sticky = true;
@@ -188,6 +199,14 @@ pub fn gen_c05(rng: &mut Rng, _i: u64, _tier: Tier) -> Script {
         let f = random_fault(rng, valid_len);
         let m = crate::dec::apply_faults(&vs.bytes, &[f], &mut tmp);
         pool.extend_from_slice(&m);
+    }
+    if zlib && valid_len >= 6 && rng.chance(1, 6) {
+        // the pool starts with a frame that is fine up to its trailer
+        let mut m = vs.bytes.clone();
+        let k = valid_len - 1 - rng.usize_below(4);
+        m[k] ^= 1 << rng.below(8);
+        m.extend_from_slice(&pool);
+        pool = m;
     }
     let rl = rng.range(0, 300);
     let rb = rng.bytes(rl);
